@@ -41,7 +41,7 @@ for m in ms:
     sh("git apply MUTANT/%s_demo.patch" % m, check=True)
     rc2, p2, f2, failing2, out2 = suite()
     clean()
-    ok = (f0 == 0 and p0 > 101 and f1 == 0 and p1 == 101 and f2 >= 1 and all("demo" in x.lower() for x in failing2))
+    ok = (f0 == 0 and p0 > 101 and f1 == 0 and p1 == 101 and 1 <= f2 <= p0 - 101 and p2 + f2 == p0)   # only tests added by the demo patch fail
     print("%s %s: demo-on-clean %d/%d-failed, mutant-alone %d passed/%d failed, mutant+demo failing=%s -> %s" % (
         prop, m, p0, f0, p1, f1, failing2, "CONFIRMED" if ok else "REJECTED"))
     if not ok:
